@@ -29,6 +29,8 @@ KERNELS = [
          pids=["C03", "C04", "C05", "C06"]),
     dict(name="refpoint", file="skcriteria/agg/moora.py", fn="refpoint", params={"matrix": M, "objectives": V, "weights": V}, ret="A1 m α", pick=1,
          pids=["C03", "C04", "C05", "C06"]),
+    dict(name="fmf", file="skcriteria/agg/moora.py", fn="fmf", params={"matrix": M, "objectives": V, "weights": V}, ret="A1 m α", pick=1,
+         pids=["C03", "C04", "C05", "C06"]),
     dict(name="refpoint_reference", file="skcriteria/agg/moora.py", fn="refpoint", params={"matrix": M, "objectives": V, "weights": V}, ret="A1 n α",
          pick=2, pids=["C04"]),
     dict(name="topsis_ideal", file="skcriteria/agg/similarity.py", fn="topsis",
@@ -102,6 +104,7 @@ class Tr:
         self.helpers = {}
         self.depth = 0
         self.empty = set()
+        self.colsel = set()
 
     # ---- helpers
     def _dotted(self, node):
@@ -189,11 +192,17 @@ class Tr:
                 return f"(Np.less {b} {a})"
             if t is ast.Eq:
                 return f"(Np.equal {a} {b})"
+            if t is ast.In:
+                return f"(Np.contains {b} {a})"
             if t is ast.LtE:
                 return f"(Np.less_equal {a} {b})"
             if t is ast.GtE:
                 return f"(Np.less_equal {b} {a})"
             raise Untranslated(f"comparison {t.__name__}")
+        if isinstance(node, ast.Subscript) and isinstance(node.slice, ast.Tuple) and len(node.slice.elts) == 2 \
+                and isinstance(node.slice.elts[0], ast.Slice) and node.slice.elts[0].lower is None and node.slice.elts[0].upper is None \
+                and node.slice.elts[0].step is None:
+            return f"(Np.take_cols {self.e(node.value)} {self.e(node.slice.elts[1])})"
         if isinstance(node, ast.Subscript):
             # np.shape(x)[k]
             if isinstance(node.value, ast.Call) and self._dotted(node.value.func) in ("np.shape", "numpy.shape") and isinstance(node.slice, ast.Constant):
@@ -259,6 +268,10 @@ class Tr:
             if kws:
                 self.notes.append("dtype of np.asarray ignored (the model's numbers have one type)")
             return f"(Np.asarray {self.e(args[0])})"
+        if name == "sum" and len(args) == 1 and isinstance(args[0], ast.Name) and args[0].id in self.colsel:
+            if self._axis(kws, allow_keepdims=False) != ".a1":
+                raise Untranslated("sum over a column selection along another axis")
+            return f"(Np.sum_kept {self.e(args[0])})"
         if name in red and len(args) >= 1:
             if len(args) == 2:
                 kws = kws + [ast.keyword(arg="axis", value=args[1])]
@@ -375,6 +388,13 @@ class Tr:
                     lines.append(f"  let {_q(b.targets[0].id)} := {self.e(b.value)}")
             elif isinstance(s, ast.For):
                 lines.append(self.rows_loop(s))
+            elif isinstance(s, ast.If) and s.orelse and self._branch_target(s.body) and self._branch_target(s.body) == self._branch_target(s.orelse):
+                # if c: …; x = e1  else: …; x = e2   (the branches' other locals stay local)
+                nm = self._branch_target(s.body)
+                test = self.e(s.test)
+                b1, b2 = self.branch(s.body), self.branch(s.orelse)
+                self.env.add(nm)
+                lines.append(f"  let {_q(nm)} := (Np.ite {test} {b1} {b2})")
             elif isinstance(s, ast.If) and not s.orelse and isinstance(s.test, ast.Name) and self.k["params"].get(s.test.id) == "Bool" \
                     and all(isinstance(b, ast.Assign) and len(b.targets) == 1 and isinstance(b.targets[0], ast.Name) and b.targets[0].id in self.env
                             for b in s.body):
@@ -411,6 +431,27 @@ class Tr:
         if result is None:
             raise Untranslated("no return")
         return lines, result
+
+    @staticmethod
+    def _branch_target(stmts):
+        if stmts and all(isinstance(b, ast.Assign) and len(b.targets) == 1 and isinstance(b.targets[0], ast.Name) for b in stmts):
+            return stmts[-1].targets[0].id
+        return None
+
+    def branch(self, stmts):
+        saved = (set(self.env), set(self.colsel))
+        parts = []
+        try:
+            for b in stmts[:-1]:
+                nm = b.targets[0].id
+                rhs = self.e(b.value)
+                if isinstance(b.value, ast.Subscript) and rhs.startswith("(Np.take_cols"):
+                    self.colsel.add(nm)
+                self.env.add(nm)
+                parts.append(f"let {_q(nm)} := {rhs}; ")
+            return "(" + "".join(parts) + self.e(stmts[-1].value) + ")"
+        finally:
+            self.env, self.colsel = saved
 
     def rows_loop(self, s):
         """`for idx, row in enumerate(X): …; out[idx] = expr` with `out = np.empty(...)`: one output row per row of X"""
